@@ -35,7 +35,9 @@ def generate(tape, tier="quick"):
     if tape.chance(1, 5):
         chain.append(gen_adapter(tape, PASS))
     n_events = tape.weighted([(12, 4), (25, 4), (45, 2), (60, 1)])
-    events = gen_events(tape, 1, n_events)
+    # requests beyond the newest publication are refused and must leave the adapter as it was: the consumer then
+    # continues from its last answered request (which may lie before the refused one)
+    events = gen_events(tape, 1, n_events, refused_future_keeps_last=True, future_chance=(1, 2))
     src = {"units": tape.choice(["", "m", "km"])}
     if tape.chance(1, 4):
         from ..grids import gen_structured
